@@ -163,6 +163,15 @@ func (f *genFam) populate(r *rand.Rand) {
 		f.try(&rtypes.MsgList{Creator: b.S(), Name: "beta.jkl", Price: sdk.NewInt64Coin("ujkl", 12345)})
 		f.try(&rtypes.MsgBid{Creator: a.S(), Name: "beta.jkl", Bid: sdk.NewInt64Coin("ujkl", 66)})
 	}
+	if opt() { // listings that outlive an owner change (transfer / accepted bid do not delist): still state, still exported
+		f.try(&rtypes.MsgRegisterName{Creator: a.S(), Name: "moved.jkl", Years: 1, Data: "{}"})
+		f.try(&rtypes.MsgList{Creator: a.S(), Name: "moved.jkl", Price: sdk.NewInt64Coin("ujkl", 4242)})
+		f.try(&rtypes.MsgTransfer{Creator: a.S(), Name: "moved.jkl", Receiver: b.S()})
+		f.try(&rtypes.MsgRegisterName{Creator: b.S(), Name: "sold.jkl", Years: 1, Data: "{}"})
+		f.try(&rtypes.MsgList{Creator: b.S(), Name: "sold.jkl", Price: sdk.NewInt64Coin("ujkl", 999)})
+		f.try(&rtypes.MsgBid{Creator: cc.S(), Name: "sold.jkl", Bid: sdk.NewInt64Coin("ujkl", 77)})
+		f.try(&rtypes.MsgAcceptBid{Creator: b.S(), Name: "sold.jkl", From: cc.S()})
+	}
 	if opt() {
 		f.try(&rtypes.MsgInit{Creator: cc.S()})
 		f.try(&rtypes.MsgMakePrimary{Creator: b.S(), Name: "beta.jkl"})
